@@ -119,6 +119,11 @@ ENCODINGS = [dict(start_index=s, fill=f, transposed=t) for s in (0, 1) for f in 
 ENCODINGS += [dict(start_index=1, fill='attr', fill_value=0, dtype='uint16'), dict(start_index=0, fill='attr', fill_value=65535, dtype='uint16'),
               dict(start_index=1, fill='attr', fill_value=0, dtype='int32', transposed=True), dict(start_index=0, fill='attr', fill_value=-1, dtype='int64'),
               dict(start_index=1, fill='attr', fill_value=0, dtype='uint32'), dict(start_index=1, fill='nan', fill_value=0, dtype='int16')]
+# 64-bit tables whose fill value does not fit in 32 bits; tables that do not all count from the same base
+ENCODINGS += [dict(start_index=0, fill='attr', fill_value=int(numpy.iinfo('int64').max), dtype='int64'),
+              dict(start_index=1, fill='attr', fill_value=-9223372036854775806, dtype='int64', transposed=True),
+              dict(start_index=1, fill='attr', start_index_by_table={'edge_node': 0, 'face_face': 0, 'edge_face': 0}),
+              dict(start_index=0, fill='nan', start_index_by_table={'edge_node': 1, 'face_edge': 1})]
 
 
 def body_encoding(ctx, mesh, supply, coords_as_coords, edge_order, two_name='Two', fill_first=False):
